@@ -18,7 +18,8 @@ Inductive ending :=
 | ExitOther               (* sys.exit('message') *)
 | RaiseUnsendable         (* target raises an exception that cannot be pickled: the child's second send fails, it exits with 1 *)
 | ReturnUnsendable        (* target returns a value that cannot be pickled: the first send fails, the child exits with 1 *)
-| HardExit (n : Z).       (* os._exit(n): the child is gone without sending anything *)
+| HardExit (n : Z)        (* os._exit(n): the child is gone without sending anything *)
+| ReturnUnloadable (e : Z).  (* target returns a value whose unpickling raises e in the parent *)
 
 Inductive phase := NoKill | KillBefore | KillDuring | KillBetween | KillAfter.
 
@@ -26,7 +27,8 @@ Record cfg := { how : ending; kill : phase; sig : Z }.   (* sig: 15 SIGTERM (ter
 
 (* what travels on the pipe *)
 Inductive payload := PNone | PVal (v : Z) | PExc (e : Z) | PSysExit (n : Z) | PSysExitOther
-| POSErr (code : Z).      (* OSError(code, strerror(code)) made by the parent *)
+| POSErr (code : Z)       (* OSError(code, strerror(code)) made by the parent *)
+| PBad (e : Z).           (* a message whose unpickling raises e in the parent *)
 
 (* the two messages the child intends to send, and the exit code it intends to return *)
 Definition child_plan (h : ending) : payload * payload * Z :=
@@ -39,6 +41,7 @@ Definition child_plan (h : ending) : payload * payload * Z :=
   | RaiseUnsendable => (PNone, PNone, 1)       (* only the first message goes out: see child_run *)
   | ReturnUnsendable => (PNone, PNone, 1)      (* nothing goes out *)
   | HardExit n => (PNone, PNone, n)
+  | ReturnUnloadable e => (PBad e, PNone, 0)
   end.
 
 (* how many of the two messages the child manages to send when nobody kills it *)
@@ -64,6 +67,8 @@ Definition OS_ERROR (code : Z) : payload := POSErr code.
    terminate() (result None), any other signal resolves the future with an OSError *)
 Definition collect (msgs : list payload) (exitcode : Z) : fut :=
   match msgs with
+  | PBad e :: _ => FError (PExc e)             (* the first recv() raises the unpickling error *)
+  | _ :: PBad e :: _ => FError (PExc e)
   | m1 :: m2 :: _ => match m2 with PNone => FResult m1 | e => FError e end
   | _ =>
       let result := match msgs with m1 :: _ => m1 | [] => PNone end in
@@ -97,6 +102,8 @@ Definition thread_future (h : ending) : fut :=
   | RaiseUnsendable => FError (PExc 0)      (* nothing is pickled in a thread: the exception itself *)
   | ReturnUnsendable => FResult (PVal 0)
   | HardExit n => Pending                    (* os._exit in a thread ends the whole process: out of scope *)
+  | ReturnUnloadable e => FResult (PVal 0)   (* nothing is pickled in a thread *)
   end.
 
-Definition sendable (h : ending) : bool := match h with RaiseUnsendable | ReturnUnsendable | HardExit _ => false | _ => true end.
+Definition sendable (h : ending) : bool :=
+  match h with RaiseUnsendable | ReturnUnsendable | HardExit _ | ReturnUnloadable _ => false | _ => true end.
